@@ -132,17 +132,9 @@ func (mc *MemCore) Write(ent zapcore.Entry, fields []zapcore.Field) error {
 	mc.mu.Lock()
 	defer mc.mu.Unlock()
 
-	var entry *observer.LoggedEntry
-	r := mc.r
-	v := r.Value
-	if v == nil {
-		entry = &observer.LoggedEntry{}
-		r.Value = entry
-	} else {
-		entry = v.(*observer.LoggedEntry)
-	}
-	entry.Entry = ent
-	entry.Context = fields
+	// always store a new entry object: the old one may have been handed out by
+	// GetLogs and must not change under its reader
+	mc.r.Value = &observer.LoggedEntry{Entry: ent, Context: fields}
 	mc.r = mc.r.Next()
 	return nil
 }
